@@ -78,3 +78,101 @@ Proof.
     + right. destruct E as [|[a s] E0]; [congruence|]. left. reflexivity.
     + unfold len in Hlen. lia.
 Qed.
+
+Section Main.
+Hypothesis Hcodec : codec_statement.
+Hypothesis Htotal : compile_total_statement.
+Variable ty : N.
+
+(* ---------- the fresh builder ---------- *)
+Lemma init_inv rows cols G rem :
+  1 + rem <= G -> NODE_MAX * G + 100 < U64 ->
+  inv ty G rem [] [] (new_builder ty rows cols) /\ last_ok [] (new_builder ty rows cols).
+Proof.
+  intros HG1 HG2. split; [|reflexivity].
+  constructor; auto.
+  - split; [exact I|]. split; [|apply reg_ok_new].
+    constructor; try reflexivity.
+    intros fuel acc0 Hf. destruct fuel; [cbn in Hf; lia|]. reflexivity.
+  - constructor.
+    + cbn. auto.
+    + constructor; [|constructor]. unfold unf_ok. cbn. splits; auto.
+    + cbn. splits; auto. split; cbn; [unfold U64; lia|constructor].
+    + intros a [].
+    + reflexivity.
+  - unfold top_empty. cbn. intros u Hu. inversion Hu. reflexivity.
+  - cbn. unfold len. cbn. lia.
+Qed.
+
+(* ---------- into_inner ---------- *)
+Lemma b_finish_ok summer G E acc b :
+  inv ty G 0 E acc b -> ty < U64 -> (forall l, summer l < 4294967296) ->
+  exists bs p, b_finish summer b = Ok bs /\ spec_parse bs = Some p /\
+    p_version p = 3 /\ p_ty p = ty /\ p_len p = len acc /\ p_content p = rev acc /\
+    p_checksum p = Some (summer (firstn (length bs - 4) bs)).
+Proof.
+  intros [Hm Hs Htop Hlen Hbud HG Hna] Hty Hsum.
+  unfold b_finish, b_finish_full.
+  destruct (compile_from b 0) as [b1 r1] eqn:Hcf.
+  destruct (compile_from_ok Hcodec Htotal ty E b (lastkey acc) (rev acc) 0 b1 r1 Hm Hs) as
+    (E1 & -> & Hm1 & F1 & F2 & Flen & Fs & _); auto.
+  { unfold len, NODE_MAX in *. lia. }
+  cbn [firstn] in Fs. destruct Fs as [Fsh Fu FW Fd FL].
+  destruct (b_stack b1) as [|root rest] eqn:Hst1; [destruct Fsh|]. cbn [shape] in Fsh.
+  destruct Fsh as (Hrl & ->). rewrite Hrl.
+  assert (Fs : sinv E1 ([] ++ [root]) [] (rev acc)) by (constructor; auto; cbn [app shape]; auto).
+  pose proof (node_ok_top _ _ _ _ _ Fs Hrl) as Hnok.
+  destruct (compile b1 (u_node root)) as [b2 r2] eqn:Hc2.
+  destruct (compile_ok Hcodec Htotal ty E1 b1 _ b2 r2 Hm1 Hnok) as (E2 & a & -> & Hm2 & _ & _ & G3 & Hcase); auto.
+  { unfold len, NODE_MAX in *. cbn [length] in *. lia. }
+  cbn [Lstk] in FL. rewrite Hrl, app_nil_r in FL.
+  (* the root is the last node written, or the whole file is the empty final node *)
+  assert (Hroot : (E2 = [] /\ a = 0 \/ E2 <> [] /\ a = top_addr E2) /\
+                  (if a =? 0 then [([], 0)] else elang E2 a) = rev acc).
+  { destruct Hm1 as (HE1 & _). destruct Hm2 as (HE2 & _).
+    destruct Hcase as [(-> & [(-> & Hsen)|(s & Hin & Hsn)])|(s & -> & Hsn)].
+    - (* nothing was ever written *)
+      assert (E1 = []).
+      { destruct E1 as [|[a0 s0] E0]; [reflexivity|]. exfalso.
+        specialize (Fd a0 (or_introl eq_refl)). cbn [dom] in Fd. destruct Hsen as (_ & Hnt & _).
+        rewrite Hnt, Hrl in Fd. destruct Fd as [Fd|(Fd & _)]; [inversion Fd|congruence]. }
+      subst E1. split; [left; auto|]. change (0 =? 0) with true. cbv iota.
+      rewrite <- FL. symmetry. apply lang_node_sentinel. exact Hsen.
+    - (* the root cannot be an older node: it points to something at or above every written node *)
+      exfalso. destruct (store_in_node_ok _ _ _ HE1 Hin) as (_ & Hlt & _).
+      specialize (Fd a (store_in_addrs _ _ _ Hin)). cbn [dom] in Fd. rewrite Hrl in Fd.
+      destruct Fd as [Fd|(Fd & _)]; [|congruence].
+      apply Exists_exists in Fd. destruct Fd as (x & Hx & Hax).
+      rewrite <- Hsn in Hx. cbn [bn_of n_trans] in Hx. rewrite Forall_forall in Hlt. apply Hlt in Hx. lia.
+    - assert (Hin : In (a, s) ((a, s) :: E1)) by (left; reflexivity).
+      destruct (store_in_node_ok _ _ _ HE2 Hin) as (_ & _ & H16).
+      split; [right; split; [discriminate|reflexivity]|].
+      destruct (N.eqb_spec a 0) as [X|_]; [lia|].
+      rewrite (elang_in _ _ _ HE2 Hin), Hsn. rewrite lang_node_cons; auto. }
+  destruct Hroot as (Hroot & Hcontent).
+  destruct Hm2 as (HE2 & [B1 B2 B3 B4 B5 B6] & _).
+  set (b3 := b_write b2 [u64_le (b_len b2); u64_le a]).
+  assert (Hbody : concat (rev (b_out b3)) = body b2 ++ u64_le (b_len b2) ++ u64_le a ++ []).
+  { change (concat (rev (b_out b3))) with (body b3). unfold b3. rewrite body_write. reflexivity. }
+  assert (Hv : b_version b3 = 3) by exact B1.
+  rewrite Hv. change (3 <=? 3) with true. cbv iota. cbn [fst].
+  rewrite Hbody, app_nil_r.
+  set (bd3 := body b2 ++ u64_le (b_len b2) ++ u64_le a).
+  pose proof (top_addr_bound _ HE2) as Htb.
+  assert (HlenE2 : len E2 <= G).
+  { destruct Hcase as [(-> & _)|(s & -> & _)]; unfold len in *; cbn [length] in *; lia. }
+  assert (Hflen : b_len b2 < U64) by (rewrite G3, F2, Hlen; unfold NODE_MAX, U64 in *; lia).
+  assert (Haa : a < U64).
+  { destruct Hroot as [(_ & ->)|(_ & ->)]; unfold NODE_MAX, U64 in *; lia. }
+  exists ((bd3 ++ u32_le (summer bd3))). eexists. split; [reflexivity|].
+  unfold bd3 at 1. rewrite <- !app_assoc.
+  rewrite (spec_parse_built ty E2 (body b2) (b_len b2) a (summer bd3)); auto.
+  2:{ rewrite B3. exact B2. }
+  split; [reflexivity|]. cbn [p_version p_ty p_len p_content p_checksum].
+  splits; auto.
+  - rewrite G3, F2. exact Hlen.
+  - do 2 f_equal. rewrite app_length. unfold u32_le at 1. rewrite le_bytes_length.
+    replace (length bd3 + 4 - 4)%nat with (length bd3) by lia.
+    symmetry. apply firstn_app_exact. reflexivity.
+Qed.
+End Main.
